@@ -200,4 +200,16 @@ theorem ident_agree_partial (p : Str) (h : simpleSnake p = true) : snakeToUpperC
 theorem ts_ident_agree_partial (p : Str) (h : simpleSnake p = true) : snakeToLowerCamel p = jsonName p :=
   snakeToLowerCamel_eq_jsonName p h
 
+def wrapMapMsg : Message := mk1 "Tags" [{ name := "entries".toList, kind := .string, card := .map, unwrap := true }]
+def holderMsg : Message := mk1 "Holder" [{ name := "by_key".toList, kind := .message, typeName := ".p.Tags".toList, card := .map }]
+def wrapMapRq : Request := { files := [{ name := "a.proto".toList, generate := true, messages := [holderMsg, wrapMapMsg] }] }
+
+/-- witness for finding `map_value_unwrap_of_map_field`: a root-map unwrap message used as the VALUE of
+a map is accepted by go-http, but the map-value template assumes the wrapper's unwrap field is a list
+(`&Tags{Entries: items}` with `items []interface{}`): the emitted package does not compile; scalar
+elements also leave the protojson import of the unwrap file unused. -/
+theorem w_map_value_unwrap_of_map_field :
+    runGoHttp wrapMapRq = none ∧ "map_value_unwrap_of_map_field" ∈ goDefects wrapMapRq "go-http" ∧
+    "unwrap_unused_import" ∈ goDefects wrapMapRq "go-http" ∧ goDefects wrapMapRq "go-client" = [] := by decide
+
 end Sebuf.C13
